@@ -330,7 +330,7 @@ reg(
     "single / double / literal / folded scalars, comments, blank lines, anchors + aliases, explicit keys, document markers, several documents), "
     "with LF and, for a share, CRLF and CR breaks; the JSON text read by Python's json must equal the tree with exact types. Every stream is "
     "cross-checked with PyYAML's BaseLoader before use. Named documents cover shapes kept out of the random family. A deterministic sample of "
-    "the space (60 streams quick, 1500 thorough), not the space.",
+    "the space (60 streams quick, 600 thorough), not the space.",
     [only_cfgs(_lazy("yamlload", "rule_load", n_quick=60), ["cli"])],
     quick=["cli"],
     technique="finite-domain evaluation of parser/index/cursor MIR over a generated presentation family vs the generating tree",
